@@ -106,6 +106,11 @@ func (f *Frame) execInstr(ins ssa.Instruction, st *State) {
 			f.nopanic(st, "index", x.Pos(), and(app(SBool, "<=", intLit(0), idx), app(SBool, "<", idx, intLit(bt.Len()))), "array index in range")
 			f.set(x, &V{Typ: x.Type(), T: sel(base.T, idx)})
 		default:
+			if base.T.Sort == SStr {
+				f.nopanic(st, "index", x.Pos(), and(app(SBool, "<=", intLit(0), idx), app(SBool, "<", idx, strLen(base.T))), "string index in range")
+				f.set(x, &V{Typ: x.Type(), T: strAt(base.T, idx)})
+				return
+			}
 			f.fail("Index on %s", typeKey(base.Typ))
 		}
 	case *ssa.Lookup:
